@@ -498,11 +498,14 @@ def fam_c01(tier, seed, prop="C01"):
                 rng.shuffle(perm)
                 delays = [p * MS for p in perm]
             msgs = []
-            for name, dl in zip(combo, delays):
+            # now and then one of the requests answered through respond() is a HEAD request (no body on the wire)
+            headable = [i_ for i_, n_ in enumerate(combo) if n_ in ("r5", "r1023", "r1025", "rbig", "rundecl", "drop", "panic")]
+            head_at = rng.choice(headable) if headable and rng.random() < 0.25 else -1
+            for i_, (name, dl) in enumerate(zip(combo, delays)):
                 p = plans[name]()
                 if dl:
                     p["delay_ns"] = dl
-                msgs.append(Msg(plan=p))
+                msgs.append(Msg(plan=p, method="HEAD" if i_ == head_at else "GET"))
             d, j, ln = conn(msgs, 0)
             late = rng.random() < 0.4 and len(combo) == 3
             if late:
@@ -665,14 +668,19 @@ def fam_c03(tier, seed):
     programs = [("one", [1]), ("seven", [7]), ("kib", [1024]), ("huge", [200000]), ("mixed", [1, 1023, 2, 4096, 3]),
                 # a read into an empty buffer (which by the contract of std::io::Read says nothing about the end of the
                 # stream) in the middle of the body
-                ("zero-mid", [7, 0, 4096])]
-    for tag, kw in _body_variants("thorough"):
+                ("zero-mid", [7, 0, 4096]),
+                # the helpers of std an application would normally use
+                ("std-read_to_end", "read_to_end"), ("std-copy", "copy")]
+    for tag, kw in _body_variants("thorough") + [("cl300000", dict(framing="cl", body_len=300000)),
+                                                 ("ch300000", dict(framing="chunked", body_len=300000, chunks=[65536, 1, 100000]))]:
         for ptag, sizes in programs:
             # (a program of tiny reads over a body of tens of KiB is tens of thousands of events per
             #  execution: the tiny-read programs are crossed with bodies up to 5000 bytes only)
             if kw["body_len"] > 6000 and ptag in ("one", "seven"):
                 continue
             if ptag == "one" and kw["body_len"] > (1100 if tier == "quick" else 5000):
+                continue
+            if kw["body_len"] > 100000 and ptag not in ("kib", "huge", "zero-mid", "std-read_to_end", "std-copy"):
                 continue
             for follow, both, case in itertools.product(["none", "request", "garbage"], [False, True, "te-first"], ["std", "lower", "upper"]):
                 if both and kw["framing"] != "chunked":
@@ -681,7 +689,8 @@ def fam_c03(tier, seed):
                     continue
                 names = {"std": ("Content-Length", "Transfer-Encoding"), "lower": ("content-length", "transfer-encoding"),
                          "upper": ("CONTENT-LENGTH", "TRANSFER-ENCODING")}[case]
-                first = Msg(method="POST", plan=_with_read(respond(200, 4), sizes=sizes, to_eof=True), cl_name=names[0],
+                rplan = dict(respond(200, 4), read_std=sizes) if isinstance(sizes, str) else _with_read(respond(200, 4), sizes=sizes, to_eof=True)
+                first = Msg(method="POST", plan=rplan, cl_name=names[0],
                             te_name=names[1], both=bool(both), te_first=(both == "te-first"), **kw)
                 msgs = [first] + ([Msg()] if follow == "request" else [])
                 trailing = b"\x01\x02 garbage bytes\r\n\r\n" if follow == "garbage" else b""
@@ -1082,6 +1091,9 @@ def corpus(tier):
     c.append(("chunked", lambda: [Msg(method="POST", framing="chunked", body_len=23, chunks=[10, 1, 12], plan=_with_read(respond(200, 3), sizes=[9], to_eof=True)), Msg()], b""))
     c.append(("chunked-ext", lambda: [Msg(method="POST", framing="chunked", body_len=17, chunks=[16, 1], chunk_opts=dict(hexcase="upper", lead0=1, ext=";a=b"), plan=_with_read(respond(200, 3), sizes=[64], to_eof=True)), Msg()], b""))
     c.append(("unread-body", lambda: [Msg(method="POST", framing="cl", body_len=1500, plan=respond(200, 3)), Msg()], b""))
+    c.append(("unread-chunked", lambda: [Msg(method="POST", framing="chunked", body_len=120, chunks=[50, 70], plan=respond(200, 3)), Msg()], b""))
+    c.append(("partread-chunked", lambda: [Msg(method="POST", framing="chunked", body_len=90, chunks=[30], plan=_with_read(respond(200, 3), sizes=[10], upto=10)), Msg(), Msg()], b""))
+    c.append(("dropped-chunked", lambda: [Msg(method="POST", framing="chunked", body_len=60, chunks=[60], plan=drop()), Msg()], b""))
     c.append(("head-close", lambda: [Msg(method="HEAD"), Msg(conn="close")], b""))
     c.append(("v10", lambda: [Msg(version="1.0", conn="keep-alive"), Msg(version="1.0")], b""))
     c.append(("bad-line", lambda: [Msg(), Msg(cls="r400", why="C10", raw_head=b"GET @URL@\r\n\r\n")], b""))
@@ -1120,6 +1132,11 @@ def fam_c13(tier, seed):
             cutsets.append(("split@%d" % s, [s]))
         if ln <= (400 if tier == "quick" else 3000):
             cutsets.append(("bytewise", list(range(1, ln))))
+        # fine but not bytewise: a segment every 16 / every 3 bytes
+        if ln <= 6000:
+            cutsets.append(("every16", list(range(16, ln, 16))))
+        if ln <= 1600:
+            cutsets.append(("every3", list(range(3, ln, 3))))
         for r in range(6 if tier == "quick" else 50):
             kk = rng.randint(2, 8)
             cutsets.append(("multi%d" % r, sorted(rng.sample(range(1, ln), min(kk, ln - 1)))))
@@ -1311,6 +1328,9 @@ def fam_c02(tier, seed):
         Msg(method="POST", framing="cl", body_len=3, expect="100-Continue", headers=[("Host", "verif"), ("Expect", "100-Continue"), ("content-length", "3")]),
         Msg(headers=[("TE", "Trailers, Deflate;q=0.5"), ("Content-Type", "Text/Plain; Charset=UTF-8"), ("Upgrade", "WebSocket"), ("Host", "Verif.Example:80")]),
         Msg(method="POST", framing="cl", body_len=2000, headers=[("Host", "verif"), ("CONTENT-LENGTH", "2000"), ("Connection", "Keep-Alive")]),
+        Msg(method="POST", framing="chunked", body_len=6, headers=[("Host", "verif"), ("Content-Length", "6"), ("Transfer-Encoding", "chunked")]),
+        Msg(method="POST", framing="chunked", body_len=4, headers=[("Transfer-Encoding", "chunked"), ("Host", "verif"), ("content-length", "4"), ("X-After", "1")]),
+        Msg(method="POST", framing="chunked", body_len=9, chunks=[3], headers=[("CONTENT-LENGTH", "9"), ("Content-Length", "9"), ("TRANSFER-ENCODING", "Chunked"), ("Host", "verif")]),
         Msg(headers=[("Host", "verif"), ("Connection", "CLOSE")]),
     ]
     scs.append(flush(interp, k, ["interpreted-headers"]))
@@ -1478,13 +1498,18 @@ def fam_c14(tier, seed):
                 "version": b"GET @URL@ HTTP/1.%s\r\nHost: x\r\n\r\n", "name": b"GET @URL@ HTTP/1.1\r\nHo%sst: x\r\n\r\n",
                 "value": b"GET @URL@ HTTP/1.1\r\nHost: x%sy\r\n\r\n", "eol": b"GET @URL@ HTTP/1.1\r%s\nHost: x\r\n\r\n"}[pos]
         heads.append(("byte:%s:%02x" % (pos, byte[0]), base.replace(b"%s", byte), "any"))
+    # thousands of heads on one connection (every rejected or answered request must leave the thread's stack as it was)
+    for tag, one in (("v2.0", b"GET /x HTTP/2.0\r\nHost: x\r\n\r\n"), ("v3.0-body", b"POST /x HTTP/3.0\r\nContent-Length: 2\r\n\r\nab"),
+                     ("get", b"GET /c0m0 HTTP/1.1\r\nHost: x\r\n\r\n"), ("head", b"HEAD /c0m0 HTTP/1.1\r\nHost: x\r\n\r\n")):
+        for n in ((4000,) if tier == "quick" else (4000, 60000)):
+            heads.append(("many-heads:%s:%d" % (tag, n), one * n + b"GET @URL@ HTTP/1.1\r\nHost: x\r\n\r\n", "ok"))
     for tag, raw, kind in heads:
         # outcome classes differ (delivered / 400 / close); C14 only looks at panics, aborts and allocation,
         # so the message is described as a plain close-class message and the connection is cut afterwards
         mm = Msg(cls="close", why="C14", raw_head=raw)
         d, j, ln = conn([mm], 0)
-        d["prog"] = [{"op": "send", "to": ln}, {"op": "sleep", "ns": 20 * MS}, {"op": "close"}]
-        sc = scenario("C14-%04d" % k, "C14", [(d, j, ln)], [serve("recv", "spawn")], horizon_ms=100, transport="tcp")
+        d["prog"] = [{"op": "send", "to": ln}, {"op": "sleep", "ns": (500 if tag.startswith("many-heads") else 20) * MS}, {"op": "close"}]
+        sc = scenario("C14-%04d" % k, "C14", [(d, j, ln)], [serve("recv", "inline" if tag.startswith("many-heads") else "spawn")], horizon_ms=100, transport="tcp")
         sc["tags"] = ["adversarial", tag]
         sc["d2only"] = True
         sc["judge"]["resonly"] = True
